@@ -2181,6 +2181,7 @@ pub fn seq_profile(prop: &str) -> Option<(SeqCfg, Opts)> {
 				debug: 12,
 				accessors: 4,
 				temp_coll: 6,
+				owned_temp: 6,
 				p_debug_in_body: 200,
 				release: 5,
 				..StepW::default()
